@@ -787,7 +787,7 @@ def cli_child(argfile):
     os._exit(0)
 
 
-def run_child(fn_name, args, workdir, timeout=120):
+def run_child(fn_name, args, workdir, timeout=900):
     """run client_harness.<fn_name>(argfile) in a fresh interpreter -> (exit code, stdout)."""
     import json, subprocess
     os.makedirs(workdir, exist_ok=True)
